@@ -23,6 +23,7 @@ fn main() {
         ("fes", "replay") => fes::replay(&args[2..]),
         ("fes", "record") => fes::record(&args[2..]),
         ("rt", "replay") => rt::replay(&args[2..]),
+        ("rt", "record") => rt::record(&args[2..]),
         ("props", "replay") => props::replay(&args[2..]),
         ("props", "slots") => props::replay_slots(&args[2..]),
         ("body", "replay") => body::replay(&args[2..]),
